@@ -51,8 +51,15 @@ import (
 const (
 	c14IDFresh = "vffresh"
 	c14IDHalt  = "vfhalt"
-	c14Bound   = 10 * time.Second
 )
+
+// the structural bound of one request / probe: 10 s, tripled when the binaries carry the race detector
+var c14Bound = func() time.Duration {
+	if vfnRaceEnabled {
+		return 30 * time.Second
+	}
+	return 10 * time.Second
+}()
 
 // ---------------------------------------------------------------- child
 
